@@ -228,6 +228,12 @@ func (g *pgen) operand() J {
 }
 
 func (g *pgen) text() J {
+	if g.trims && g.r.Intn(30) == 0 {
+		// a long run of white space (a hyphen removes all of it, however long), alone or next to other characters
+		n := pick(g.r, []int{1023, 1024, 1025, 1500, 4096, 5000})
+		ws := strings.Repeat(pick(g.r, []string{" ", "\n", " \t", "  \n "}), n)[:n]
+		return nText(pick(g.r, []string{ws, "x" + ws, ws + "y", "x" + ws + "y" + ws, ws + "é" + ws}))
+	}
 	return nText(pick(g.r, genTexts))
 }
 
